@@ -546,5 +546,11 @@ func (lr *limitReader) Read(p []byte) (int, error) {
 	if lr.n < 0 {
 		lr.n = 0
 	}
+	if lr.n == 0 && err == io.EOF {
+		// The reader reported the end of the message together with the last byte
+		// of the budget, which is one more byte than the limit allows.
+		err = fmt.Errorf("read limited at %v bytes", lr.limit.Load())
+		lr.c.writeError(StatusMessageTooBig, err)
+	}
 	return n, err
 }
